@@ -600,7 +600,9 @@ func (w *World) resolveLoadX(v ssa.Value, hopParams bool) ssa.Value {
 		}
 		ss := w.stores[w.locKey(u.X)]
 		if viaFreeVar {
-			if len(ss) != 1 {
+			if len(ss) != 1 || storeRepeatsPerObject(ss[0], al) {
+				// (one variable assigned once per loop iteration and read by the function
+				// literals made in the loop: they read whatever the latest iteration stored)
 				return v
 			}
 			v = ss[0].Val
